@@ -26,6 +26,11 @@
     live, which the serialiser checks syntactically ("freshness" in
     harness/translate_pylite.py).
 
+    Objects ([VO]) carry their class name and the attributes assigned so far;
+    [self.a = v] rebinds [self].  The effect on the caller's object is not
+    observed (functions are observed through their result or exception only),
+    and attributes set by a callee are not seen (reading them is [Stuck]).
+
     Anything outside the fragment evaluates to [Stuck], which makes the
     equivalence proofs fail (fail closed). *)
 From Coq Require Import QArith Qround Qabs ZArith List Bool String.
@@ -41,7 +46,8 @@ Inductive val :=
 | VS (s : string)
 | VL (l : list val)           (* list *)
 | VT (l : list val)           (* tuple *)
-| VA (l : list val).          (* numpy array *)
+| VA (l : list val)           (* numpy array *)
+| VO (cls : string) (fields : list (string * val)).   (* an object: its class name and the attributes set so far *)
 
 Inductive binop := Add | Sub | Mul | Div | FloorDiv | Mod.
 Inductive cmpop := CLt | CLe | CGt | CGe | CEq | CNe.
@@ -78,6 +84,7 @@ Inductive stmt :=
 | SAppend (x : string) (e : expr)                (* x.append(e), x a list *)
 | SSetItem (x : string) (i : expr) (e : expr)    (* x[i] = e *)
 | SSetSlice (x : string) (k : Z) (e : expr)      (* x[:k] = e, k >= 0 *)
+| SSetAttr (x : string) (a : string) (e : expr)  (* x.a = e, x an object (only [self] is admitted by the serialiser) *)
 | SExpr (e : expr)                               (* an expression evaluated for its exceptions *)
 | SRaise
 | SReturn (e : expr)
@@ -214,6 +221,7 @@ Definition truthy (v : val) : option bool :=
   | VL l => Some (match l with [] => false | _ :: _ => true end)
   | VT l => Some (match l with [] => false | _ :: _ => true end)
   | VA _ => None
+  | VO _ _ => Some true
   end.
 
 Fixpoint comp_loop (k : comp_kind) (f : val -> option (option val)) (vs : list val) : option (option val) :=
@@ -796,6 +804,12 @@ Fixpoint exec (s : stmt) (env : list (string * val)) {struct s} : outcome :=
           | Some (Some a') => Normal ((x, a') :: env)
           | Some None => Raised
           | None => Stuck end
+      | Some _, Some None => Raised
+      | _, _ => Stuck
+      end
+  | SSetAttr x a e =>
+      match lookup env x, eval env e with
+      | Some (VO c fs), Some (Some v) => Normal ((x, VO c ((a, v) :: fs)) :: env)
       | Some _, Some None => Raised
       | _, _ => Stuck
       end
